@@ -199,6 +199,22 @@ var props = map[string]propCfg{
 		},
 		MinNontriv: 300,
 	},
+	"C12": {
+		Quick:    tierCfg{Shards: 8, Checks: 250, Timeout: 4 * time.Minute},
+		Thorough: tierCfg{Shards: 16, Checks: 4000, Timeout: 40 * time.Minute},
+		Rule: "a patch set of 1-3 changes (mined from real code; repository test patches with their inputs; hand-written changes whose rewrite fails / adds an import), two thirds of them with a 1-2 line description carrying a unique token, in 1-2 patch files or on stdin; a tree of 1-6 Go files (made for a change, variants, unrelated, planted instances, injected syntax error, generated header, byte-identical twins; a third of them deformed: CRLF, no final newline, odd indentation, unsorted imports, legacy build tags, odd comments) plus entries that are not gopatch's business (text, json, vendor/, testdata/, hidden directory, .go.orig); arguments = files, directories, '...', duplicates, relative / absolute / mixed spellings of the same file; a drawn subset of -v, --skip-generated, --skip-import-processing. " +
+			"The invocation is run in the default mode, with --print-only, with --diff and with both, each on an identically re-created tree (old mtimes) whose complete snapshot (type, mode, size, mtime, inode, sha256 of every entry incl. patch files and an empty $TMPDIR) is compared before/after. " +
+			"Oracles: (a) any difference after a dry run is a violation; (b) stdout of --print-only must be the concatenation in path order of the bytes the default mode leaves in the files (plus the -v log lines); the original with its --diff hunks applied by a small applier must equal the written bytes, no diff for a file outside the run or for one that failed; patch.File.Apply on the joined patch must return the written bytes (only without --skip-import-processing; generated files only without --skip-generated) and fail exactly when the command line fails for that file; exit status equal in all modes; (c) default-mode stdout empty (only log lines with -v), no description token on any stdout, every stderr line before the error text is 'reported-path:description' of a change that applied to that file (decided by folding the changes one by one through the library, confirmed by a -v solo run before a report). " +
+			"Non-trivial = the run covers >= 1 file the patches change and >= 1 they leave alone; distinct by sha256(case).",
+		Assumptions: []string{
+			"the path a file is reported under is the argument's spelling: relative to the working directory for relative arguments, absolute for absolute ones; when both reach one file the last argument decides (observed; not part of the statement, used only to attribute diffs and descriptions to files)",
+			"for a file that cannot be processed (syntax error, failing rewrite) no bytes are compared; --print-only may echo it unchanged or print nothing",
+			"--diff together with --print-only is only held to 'writes nothing'",
+			"which description is printed when several described changes apply to one file is not judged (the statement only says 'only')",
+			"a crash or time-out of a run is property C08's business: the case is not judged",
+		},
+		MinNontriv: 60,
+	},
 	"C14": {
 		Race:     true,
 		Quick:    tierCfg{Shards: 8, Checks: 60, Timeout: 4 * time.Minute},
